@@ -74,6 +74,7 @@ inductive ER : K → Sub → Expr → Expr → Prop
   | ident (σ x) : lookupV x σ = none → ER .expr σ (.ident x) (.ident x)
   | fn {σ p bL bR} : ER .expr (σ.erase (patVars p)) bL bR → ER .expr σ (.fn p bL) (.fn p bR)
   | neg {σ a b} : ER .expr σ a b → ER .expr σ (.neg a) (.neg b)
+  | dot {σ a b} (n : String) : ER .expr σ a b → ER .expr σ (.dot a n) (.dot b n)
   | bin {σ a b c d} (op) : ER .expr σ a b → ER .expr σ c d → ER .expr σ (.bin op a c) (.bin op b d)
   | and_ {σ a b c d} : ER .expr σ a b → ER .expr σ c d → ER .expr σ (.and_ a c) (.and_ b d)
   | or_ {σ a b c d} : ER .expr σ a b → ER .expr σ c d → ER .expr σ (.or_ a c) (.or_ b d)
@@ -195,6 +196,27 @@ theorem ValR.data_left {v : V} {b : Val} (h : ValR (.data v) b) : b = .data v :=
 
 theorem mkNum_rel (n : Int) : ResR ValR (mkNum n) (mkNum n) := by
   unfold mkNum; split <;> simp; exact ValR.data _
+
+theorem getAttr_rel (n : String) (as : List (String × V)) : ResR ValR (getAttr n as) (getAttr n as) := by
+  unfold getAttr
+  split
+  · simp; exact ValR.data _
+  · split <;> simp
+
+theorem ValR.dotV (n : String) {a b : Val} (h : ValR a b) : ResR ValR (dotV n a) (dotV n b) := by
+  cases h with
+  | data v =>
+    cases v with
+    | tup as => exact getAttr_rel n as
+    | set xs =>
+      match xs with
+      | [.tup as] => exact getAttr_rel n as
+      | [] => simp [Impl.dotV]
+      | [.num _] => simp [Impl.dotV]
+      | [.set _] => simp [Impl.dotV]
+      | _ :: _ :: _ => simp [Impl.dotV]
+    | num _ => simp [Impl.dotV]
+  | clo => simp [Impl.dotV]
 
 theorem mkNum_ok {n : Int} {r : Val} (h : mkNum n = .ok r) : ∃ u, r = Val.data u := by
   unfold mkNum at h
@@ -621,6 +643,10 @@ theorem simStep (nL : Nat) (IH : ∀ m, m < nL → SimAt m) : SimAt nL := by
     intro nR envL envR henv
     simp only [SimGoal, evalE]
     exact ResR.bind (ih nR envL envR henv) (fun _ _ h => h.negV)
+  | dot n _ ih =>
+    intro nR envL envR henv
+    simp only [SimGoal, evalE]
+    exact ResR.bind (ih nR envL envR henv) (fun _ _ h => h.dotV n)
   | bin op _ _ iha ihc =>
     intro nR envL envR henv
     simp only [SimGoal, evalE]
